@@ -300,6 +300,7 @@ def check_property(prop, tier, seed):
     mutants_report = []
     seen_fns = set()
     undecided_units = []
+    lost_elsewhere = []
     pins_changed = []
     labels_props = {}
     for uname in pc['units']:
@@ -311,7 +312,12 @@ def check_property(prop, tier, seed):
             undecided.append('extraction failed in unit %s: %s' % (uname, e))
             continue
         collect_lemma_tags(unit)
-        for nm, why in unit.lost:
+        for nm, why, ltags in unit.lost:
+            # a lost leaf region concerns the properties it is tagged with: for the others the unit is as decidable as before
+            # (a function that CALLS the lost piece no longer compiles, which is a hard error for every property of the unit)
+            if ltags and prop not in ltags:
+                lost_elsewhere.append('%s/%s (tagged %s): %s' % (uname, nm, ' '.join(ltags), why))
+                continue
             undecided.append('extraction of %s/%s failed (left out; the rest of the unit is still checked): %s' % (uname, nm, why))
             if uname not in undecided_units:
                 undecided_units.append(uname)
@@ -368,7 +374,7 @@ def check_property(prop, tier, seed):
             undecided.append('canary verified in unit %s: trusted prelude is inconsistent' % uname)
             continue
         air = count_obligations(os.path.join(BUILD, '%s_%s.log' % (uname, prop), 'root-final.air'))
-        lost_names = set(nm for nm, _ in unit.lost)
+        lost_names = set(x[0] for x in unit.lost)
         tagged = [f for f in unit.funcs if prop in f.tags and f.kind != 'item' and f.outname not in lost_names]
         lemmas = [n for n, t in unit.lemma_tags.items() if prop in t]
         names = [f.outname for f in tagged] + lemmas
@@ -540,6 +546,7 @@ def check_property(prop, tier, seed):
             known_findings_note=('%d obligation(s) fail on this tree and are recorded in known_findings.txt; they are excluded from obligations/discharged above and listed here' % len(known_oids)) if known_oids else 'none',
             repo_rev=rev, repo_dirty=dirty,
             undecided=undecided,
+            lost_regions_of_other_properties=lost_elsewhere,
             conformance=conformance_note,
             failed_obligations=[dict(obligation=f['oid'], msg=f['msg'], at=f['where'], site=f['site']) for f in all_fail],
         ),
